@@ -267,6 +267,7 @@ func runC05(c *Check) {
 		sp.segs = append(sp.segs, segDepth3(pickCtx("return")[0], pickOps(all, "$0?.x", "$0?.($1)", "$0 ?? $1", "#0 ??= $0", "{...$0}", "$0(...$1)", "class { static x = $0 }.x", "async () => $0", "await $0", "$0.x", "$0($1)", "#0 = $0", "$0 ? $1 : $2", "() => $0", "$0, $1", "{x: #0} = $0", "#0 **= $0", "delete $0?.x")))
 	}
 	x.runSpace(sp)
+	c05TemplateLiterals(c, pool)
 }
 
 // c05Classify recognises, line by line, the deviations recorded in known_findings.json (each one a
